@@ -90,9 +90,83 @@ func ruleN8(p *Prog, r *Report) {
 					}
 				}
 			})
+			if !rootReset {
+				// a private reset helper: the obligation passes to every caller
+				if kind, _, ok := p.registryHelper(fn); ok && kind == "clear" {
+					sites := p.CallersOf(fn)
+					all := len(sites) > 0
+					for _, cs := range sites {
+						callerReset := false
+						recvArg := cs.Instr.Common().Args[0]
+						eachInstr(cs.Caller, func(y ssa.Instruction) {
+							if st, ok := y.(*ssa.Store); ok {
+								if f, ok := asFieldAddr(st.Addr); ok && f.Field == "root" && sameValue(f.Base, recvArg) {
+									switch v := canon(stripIface(st.Val)).(type) {
+									case *ssa.Alloc:
+										callerReset = true
+									case *ssa.Call:
+										if g := v.Call.StaticCallee(); g != nil && g.Pkg == p.RootSSA {
+											callerReset = true
+										}
+									}
+								}
+							}
+						})
+						if !callerReset {
+							all = false
+						}
+					}
+					rootReset = all
+				}
+			}
 			r.Decide(rootReset, R, cons, p.InstrPos(in), "the registry of child containers is emptied in the routine that replaces the root by a fresh empty slab",
 				"the registry of child containers is emptied although the container keeps its elements: every child handle handed out before is taken for detached at its next mutation (its callback is dropped), so that mutation changes the inlined child without updating or storing the parent")
 		})
 	}
 	r.Floor(R, "whole-registry resets", 2, n)
+}
+
+// registryHelper: g is a private method of a handle type that performs one operation on the child registry
+// (delete of the entry of its id parameter - possibly behind `id != emptyValueID` -, insertion under it, or a
+// whole reset) and nothing else on it. kind: "mapdelete", "mapupdate", "clear"; keyIdx: the parameter that is
+// the key (-1 for clear).
+func (p *Prog) registryHelper(g *ssa.Function) (kind string, keyIdx int, ok bool) {
+	if g == nil || g.Pkg != p.RootSSA || len(g.Blocks) == 0 || g.Object() == nil || g.Object().Exported() || len(g.Params) == 0 {
+		return "", -1, false
+	}
+	rn := recvName(g)
+	if rn != "Array" && rn != "OrderedMap" {
+		return "", -1, false
+	}
+	n := 0
+	keyIdx = -1
+	eachInstr(g, func(in ssa.Instruction) {
+		if cc, isClear := isBuiltinCall(in, "clear"); isClear && len(cc.Args) == 1 {
+			if lf, ok := asLoadedField(cc.Args[0]); ok && isChildRegistryField(lf) && sameValue(lf.Base, g.Params[0]) {
+				n++
+				kind = "clear"
+			}
+			return
+		}
+		fw, isW := fieldWriteOf(in)
+		if !isW || !isChildRegistryField(fw.Ref) || !sameValue(fw.Ref.Base, g.Params[0]) {
+			return
+		}
+		switch fw.Kind {
+		case "mapdelete", "mapupdate":
+			for i, q := range g.Params {
+				if canon(fw.Key) == ssa.Value(q) {
+					keyIdx = i
+				}
+			}
+			n++
+			kind = fw.Kind
+		case "assign":
+			// lazy creation of the map is not an operation of its own
+		}
+	})
+	if n != 1 || (kind != "clear" && keyIdx < 0) {
+		return "", -1, false
+	}
+	return kind, keyIdx, true
 }
